@@ -11,6 +11,7 @@ CONSTANTS
   MaxRestarts = 0
   Kinds = {"waive", "equal"}
   Pols = {"leader"}
+  SrcSet = {"request"}
   Vias = {"api", "natsq", "plain"}
   MaxHolds = 0
   MaxSnaps = 0
